@@ -682,7 +682,22 @@ impl TypeSpace {
                 assert!(!variant_name.is_empty());
                 Variant::new(variant_name, None, details)
             })
-            .collect();
+            .collect::<Vec<_>>();
+
+        // An untagged enum can have at most one variant without data (e.g.
+        // from `{ "type": "null" }`): serde could never tell two of them
+        // apart, and output_enum() asserts as much when rendering.
+        if variants
+            .iter()
+            .filter(|variant| matches!(variant.details, VariantDetails::Simple))
+            .count()
+            > 1
+        {
+            return Err(crate::Error::InvalidSchema {
+                type_name: tmp_type_name,
+                reason: "untagged enum with more than one variant that carries no data".to_string(),
+            });
+        }
 
         Ok(TypeEntryEnum::from_metadata(
             self,
